@@ -910,7 +910,8 @@ def _before(x, y):
     if not (x.concrete and y.concrete):
         c = ctx()
         if not isinstance(x.v, Fraction) or not isinstance(y.v, Fraction):
-            c.notes.append(("distinct", z3.Or(zb(x.nan), zb(y.nan), zr(x.v) != zr(y.v))))
+            d = zr(x.v) - zr(y.v)  # keep sorted keys apart by a margin that survives float rounding
+            c.notes.append(("distinct", z3.Or(zb(x.nan), zb(y.nan), d >= z3.Q(1, 1000), d <= z3.Q(-1, 1000))))
     return bool(_less_nanlast(x, y))
 
 
